@@ -30,6 +30,8 @@ t0 = time.time()
 if name in props.SPECS and os.environ.get('CB'):
     import cb
     spec_ = dict(props.SPECS[name], hb=True) if os.environ.get('HB') else props.SPECS[name]
+    if os.environ.get('FOCUS'):
+        spec_ = dict(spec_, focus=os.environ['FOCUS'].split(','))
     r = cb.run_cb(s, spec_, K=int(os.environ['CB']), timeout_s=int(os.environ.get('TIMEOUT_S', '1800')), flavor=flavor, features=feats,
                   subject=int(os.environ['SUBJECT']) if os.environ.get('SUBJECT') else None)
 elif name in props.SPECS:
